@@ -7,6 +7,7 @@ representation (Decimal vs Fraction) the representation is an explicit input.
 -/
 import QuantityModel.Model.Rounding
 import QuantityModel.Model.Registry
+import QuantityModel.Model.Rate
 namespace QM
 
 structure Qty where
@@ -32,6 +33,15 @@ structure QState where
   /-- `cls._converters` per class id, in registration order (ids into `tables`) -/
   converters : List (Nat × List Nat) := []
   tables : List ConvTable := []
+  /-- money converters created so far (by id) -/
+  mconvs : List MConv := []
+  /-- `Money._converters`: ids into `mconvs`, most recent last -/
+  mstack : List Nat := []
+  /-- what the configured `get_dflt_effective_date` callable returns -/
+  today : Int × Int × Int := (2000, 1, 1)
+  /-- the configured default rounding mode (`decimalfp.get_dflt_rounding_mode()`)
+  as seen by code that is not handed a mode (rates built inside a converter) -/
+  dfltMode : Rounding := .ROUND_HALF_EVEN
   deriving Repr, Inhabited
 
 namespace RegState
@@ -112,6 +122,15 @@ def equivAmount (s : QState) (q : Qty) (u : Nat) : Except Err (Option Rat) :=
     | none => .error .IncompatibleUnitsError
     | some (some f) => .ok (some (f * q.amount))
     | some none =>
+      if (s.reg.cls (s.reg.unitCls q.unit)).isMoney then
+        -- money: the most recently registered converter still active is
+        -- called first; it either answers or raises (never returns None)
+        match s.mstack.reverse with
+        | [] => .ok none
+        | top :: _ =>
+          let c := s.mconvs.getD top default
+          (c.call s.dfltMode q.amount q.unit u s.today.1 s.today.2.1 s.today.2.2).map some
+      else
       -- registered converters, most recent first, first non-None wins
       let rec tryConv : List Nat → Except Err (Option Rat)
         | [] => .ok none
